@@ -173,6 +173,15 @@ def make_model_class():
         def execute(self):
             self._method(**self._kwargs)
 
+    class _Entity:
+        """a short-lived object of the model (a customer, a job): its events are the only references to it"""
+
+        def __init__(self, model):
+            self.model = model
+
+        def h(self, **kwargs):
+            self.model.h(**kwargs)
+
     class ProgModel(DSOLModel):
         def __init__(self, simulator, program):
             super().__init__(simulator)
@@ -250,17 +259,22 @@ def make_model_class():
                 # the event that will fail is one whose keyword arguments do not fit the handler: the call fails when
                 # the event is carried out (not a moment earlier), the handler body never runs
                 kw["unexpected_argument"] = seq
+            # every fourth event is an event of a short-lived entity (nobody but the event refers to it) that hands
+            # over to the model's handler; an event of normal priority is in half of the cases scheduled without
+            # naming the priority (the documented default is the normal priority)
+            tgt = self if seq % 4 != 3 else _Entity(self)
+            pr = (prio,) if not (prio == 5 and seq % 2 and type(prio) is int) else ()
             if self.direct:
                 t = sim.simulator_time if how == "now" else (sim.simulator_time + arg if how == "rel" else arg)
-                ev = sim.schedule_event(DirectEvent(t, self, "h", prio, **kw))
+                ev = sim.schedule_event(DirectEvent(t, tgt, "h", prio, **kw))
             elif how == "now":
-                ev = sim.schedule_event_now(self, "h", prio, **kw)
+                ev = sim.schedule_event_now(tgt, "h", *pr, **kw)
             elif how == "rel":
-                ev = sim.schedule_event_rel(arg, self, "h", prio, **kw)
+                ev = sim.schedule_event_rel(arg, tgt, "h", *pr, **kw)
             elif how == "abs":
-                ev = sim.schedule_event_abs(arg, self, "h", prio, **kw)
+                ev = sim.schedule_event_abs(arg, tgt, "h", *pr, **kw)
             else:
-                ev = sim.schedule_event(SimEvent(arg, self, "h", prio, **kw))
+                ev = sim.schedule_event(SimEvent(arg, tgt, "h", *pr, **kw))
             self.seq += 1
             self.events.append(ev)
 
